@@ -724,3 +724,68 @@ func constructorBindings(c *Check, rule string, pkgFrag string) {
 	}
 	c.Req(n > 0, rule, "constructor fields examined", token.NoPos, fmt.Sprint(n), "no constructor literal found")
 }
+
+// resultUsedAfterErrorCheck: a pointer returned together with an error (p, err := f()) is dereferenced only where
+// err == nil (or p != nil) has been established: on the error path the pointer is nil and the dereference panics.
+func resultUsedAfterErrorCheck(c *Check, rule string, fns []*ssa.Function) {
+	n, bad := 0, 0
+	for _, fn := range fns {
+		if len(fn.Blocks) == 0 {
+			continue
+		}
+		fa := c.P.FA(fn)
+		for _, b := range fn.Blocks {
+			for _, ins := range b.Instrs {
+				call, ok := ins.(*ssa.Call)
+				if !ok || c.P.IsClone(call) {
+					continue
+				}
+				tup, ok := call.Type().(*types.Tuple)
+				if !ok || tup.Len() != 2 || !isErrorType(tup.At(1).Type()) {
+					continue
+				}
+				if _, isPtr := tup.At(0).Type().Underlying().(*types.Pointer); !isPtr {
+					continue
+				}
+				var p, e ssa.Value
+				if refs := call.Referrers(); refs != nil {
+					for _, r := range *refs {
+						if ex, ok := r.(*ssa.Extract); ok {
+							if ex.Index == 0 {
+								p = ex
+							} else {
+								e = ex
+							}
+						}
+					}
+				}
+				if p == nil || e == nil || p.Referrers() == nil {
+					continue
+				}
+				x := fa.X
+				okConds := []string{"(" + x.E(e).String() + " == nil)", "(" + x.E(p).String() + " != nil)"}
+				for _, u := range *p.Referrers() {
+					deref := false
+					switch t := u.(type) {
+					case *ssa.FieldAddr:
+						deref = t.X == p
+					case *ssa.UnOp:
+						deref = t.Op == token.MUL && t.X == p
+					}
+					if !deref {
+						continue
+					}
+					n++
+					conds := fa.PathCondStrings(u.Block())
+					if conds[okConds[0]] || conds[okConds[1]] {
+						continue
+					}
+					bad++
+					c.Bad(rule, fmt.Sprintf("%s/%s dereferenced without its error ruled out", funcName(fn), trunc(x.E(p).String())), u.Pos(),
+						"the pointer result of "+trunc(x.E(call).String())+" is dereferenced on a path where its error may be non-nil (then the pointer is nil): a Go panic")
+				}
+			}
+		}
+	}
+	c.Req(n > 0, rule, "dereferences of (pointer, error) results examined", token.NoPos, fmt.Sprintf("%d dereference(s), %d unguarded", n, bad), "no (pointer, error) result is dereferenced in scope (anchor drifted)")
+}
